@@ -22,6 +22,17 @@ Proof. induction l as [|x r IH]; intros Hfg Hd; [reflexivity|]. cbn [mapM] in *.
     + rewrite IH; [reflexivity|intros z Hz; apply Hfg; right; exact Hz|reflexivity].
   - rewrite (Hfg x (or_introl eq_refl)) by (rewrite Ex; reflexivity). rewrite Ex. reflexivity. Qed.
 
+(* hash-as-produced member conversions: done-ness transfers *)
+Lemma hashing_mono (rt : runtime) {A B} (key : B -> pv) (f g : A -> res B) x :
+  (done (f x) = true -> g x = f x) -> done (hashing rt key f x) = true -> hashing rt key g x = hashing rt key f x.
+Proof. unfold hashing. intros H Hd. destruct (bind_done _ _ Hd) as [[a [Ha _]]|[e He]].
+  - rewrite H by (rewrite Ha; reflexivity). reflexivity.
+  - rewrite H by (rewrite He; reflexivity). reflexivity. Qed.
+
+Lemma elem_conv_mono (rt : runtime) k (f g : pv -> res pv) x :
+  (done (f x) = true -> g x = f x) -> done (elem_conv rt k f x) = true -> elem_conv rt k g x = elem_conv rt k f x.
+Proof. unfold elem_conv. destruct (hashes k); [apply hashing_mono|intros H; exact H]. Qed.
+
 (* the keyword-argument fold of the structured routines *)
 Definition foldM {A K} (step : A -> K -> res A) (l : list K) (acc : res A) : res A :=
   fold_left (fun acc kv => bind acc (fun a => step a kv)) l acc.
@@ -88,10 +99,10 @@ Proof. intros Hc. unfold ustep. destruct (fst kv); try reflexivity.
 (* one-step equations of unm, with the recursive calls kept folded *)
 Definition seq_body (conv : ty -> pv -> res pv) k a x :=
   bind (load rt x) (fun d => bind (itervalues rt d) (fun vs =>
-  bind (mapM (conv a) vs) (fun rs => construct_seq rt k rs))).
+  bind (mapM (elem_conv rt k (conv a)) vs) (fun rs => construct_seq rt k rs))).
 Definition map_body (conv : ty -> pv -> res pv) k kt vt x :=
   bind (load rt x) (fun d => bind (iteritems rt E d) (fun kvs =>
-  bind (mapM (fun kv => bind (conv kt (fst kv)) (fun k' => bind (conv vt (snd kv)) (fun v' => Ok (k', v')))) kvs)
+  bind (mapM (hashing rt fst (fun kv => bind (conv kt (fst kv)) (fun k' => bind (conv vt (snd kv)) (fun v' => Ok (k', v'))))) kvs)
        (fun rs => construct_map rt k rs))).
 Definition tuple_body (conv : ty -> pv -> res pv) ts x :=
   bind (load rt x) (fun d => bind (itervalues rt d) (fun vs =>
@@ -125,7 +136,8 @@ Lemma seq_body_mono (c1 c2 : ty -> pv -> res pv) k a x :
 Proof. intros Hc. unfold seq_body.
   destruct (load rt x) as [d|e| |]; cbn [bind done]; try reflexivity.
   destruct (itervalues rt d) as [vs|e| |]; cbn [bind done]; try reflexivity. intros Hd.
-  rewrite (mapM_mono (c1 a) (c2 a)); [reflexivity|intros y _ Hy; apply Hc; exact Hy|].
+  rewrite (mapM_mono (elem_conv rt k (c1 a)) (elem_conv rt k (c2 a)));
+    [reflexivity|intros y _ Hy; apply elem_conv_mono; [apply Hc|exact Hy]|].
   destruct (bind_done _ _ Hd) as [[rs [Hrs _]]|[e He]]; [rewrite Hrs|rewrite He]; reflexivity. Qed.
 
 Lemma map_body_mono (c1 c2 : ty -> pv -> res pv) k kt vt x :
@@ -134,10 +146,10 @@ Lemma map_body_mono (c1 c2 : ty -> pv -> res pv) k kt vt x :
 Proof. intros Hc. unfold map_body.
   destruct (load rt x) as [d|e| |]; cbn [bind done]; try reflexivity.
   destruct (iteritems rt E d) as [kvs|e| |]; cbn [bind done]; try reflexivity. intros Hd.
-  rewrite (mapM_mono (fun kv => bind (c1 kt (fst kv)) (fun k' => bind (c1 vt (snd kv)) (fun v' => Ok (k', v'))))
-                     (fun kv => bind (c2 kt (fst kv)) (fun k' => bind (c2 vt (snd kv)) (fun v' => Ok (k', v'))))).
+  rewrite (mapM_mono (hashing rt fst (fun kv => bind (c1 kt (fst kv)) (fun k' => bind (c1 vt (snd kv)) (fun v' => Ok (k', v')))))
+                     (hashing rt fst (fun kv => bind (c2 kt (fst kv)) (fun k' => bind (c2 vt (snd kv)) (fun v' => Ok (k', v')))))).
   - reflexivity.
-  - intros kv _ Hkv. cbv beta in *. destruct (bind_done _ _ Hkv) as [[k' [Hk Hk2]]|[e He]].
+  - intros kv _. apply hashing_mono. intros Hkv. cbv beta in *. destruct (bind_done _ _ Hkv) as [[k' [Hk Hk2]]|[e He]].
     + rewrite (Hc kt (fst kv)) by (rewrite Hk; reflexivity). rewrite Hk. cbn [bind].
       destruct (bind_done _ _ Hk2) as [[v' [Hv _]]|[e He]].
       * rewrite (Hc vt (snd kv)) by (rewrite Hv; reflexivity). reflexivity.
@@ -194,7 +206,7 @@ Definition mseq_body (conv : ty -> pv -> res pv) a x :=
   bind (itervalues rt x) (fun vs => bind (mapM (conv a) vs) (fun rs => Ok (PSeq KList rs))).
 Definition mmap_body (conv : ty -> pv -> res pv) kt vt x :=
   bind (iteritems rt E x) (fun kvs =>
-  bind (mapM (fun kv => bind (conv kt (fst kv)) (fun k' => bind (conv vt (snd kv)) (fun v' => Ok (k', v')))) kvs)
+  bind (mapM (hashing rt fst (fun kv => bind (conv kt (fst kv)) (fun k' => bind (conv vt (snd kv)) (fun v' => Ok (k', v'))))) kvs)
        (fun rs => construct_map rt KDict rs)).
 Definition mtuple_body (conv : ty -> pv -> res pv) ts x :=
   bind (itervalues rt x) (fun vs =>
@@ -247,10 +259,10 @@ Lemma mmap_body_mono (c1 c2 : ty -> pv -> res pv) kt vt x :
   done (mmap_body c1 kt vt x) = true -> mmap_body c2 kt vt x = mmap_body c1 kt vt x.
 Proof. intros Hc. unfold mmap_body.
   destruct (iteritems rt E x) as [kvs|e| |]; cbn [bind done]; try reflexivity. intros Hd.
-  rewrite (mapM_mono (fun kv => bind (c1 kt (fst kv)) (fun k' => bind (c1 vt (snd kv)) (fun v' => Ok (k', v'))))
-                     (fun kv => bind (c2 kt (fst kv)) (fun k' => bind (c2 vt (snd kv)) (fun v' => Ok (k', v'))))).
+  rewrite (mapM_mono (hashing rt fst (fun kv => bind (c1 kt (fst kv)) (fun k' => bind (c1 vt (snd kv)) (fun v' => Ok (k', v')))))
+                     (hashing rt fst (fun kv => bind (c2 kt (fst kv)) (fun k' => bind (c2 vt (snd kv)) (fun v' => Ok (k', v')))))).
   - reflexivity.
-  - intros kv _ Hkv. apply pair_conv_mono; [exact Hc|exact Hkv].
+  - intros kv _. apply hashing_mono. intros Hkv. apply pair_conv_mono; [exact Hc|exact Hkv].
   - destruct (bind_done _ _ Hd) as [[rs [Hrs _]]|[e He]]; [rewrite Hrs|rewrite He]; reflexivity. Qed.
 
 Lemma mtuple_body_mono (c1 c2 : ty -> pv -> res pv) ts x :
